@@ -7,7 +7,7 @@
    acceptance rules: entries in emission order without repeated keys, every key/value a fixed point of its field's
    canoniser and within MAX_VEC_SIZE, every key routed to its own field, the checks of the three `impl Decodable`
    (mandatory fields, version = 2, output completeness), declared counts = number of maps <= 10 000.
-   All theorems hold for every oracle (curve points, public keys, x-only keys, bitcoin transactions, xpubs, the four
+   All theorems hold for every oracle (curve points, public keys, x-only keys, the four
    preimage hashes, the two taproot hashes), every MAX_VEC_SIZE in [4, 2^64 - 2] and every element cap. *)
 From Coq Require Import List NArith Bool.
 From Coq.Strings Require Import Byte.
@@ -18,8 +18,8 @@ Open Scope N_scope.
 
 (* ---- the tie to the source: the tables regenerated from the Rust text are consistent (same constant on the emitting and the
    parsing side of every field, every field reachable through its own key, every type name known, the magic bytes).  A changed constant or a dropped field changes these tables. *)
-Theorem C07_tables_consistent : forall maxvec c1 c2 c3 c4 o1 o2 o3 o4 o5 h1 h2 h3 h4 h5 h6,
-  tables_ok maxvec c1 c2 c3 c4 o1 o2 o3 o4 o5 h1 h2 h3 h4 h5 h6 = true.
+Theorem C07_tables_consistent : forall maxvec c1 c2 c3 c4 o1 o2 o3 h1 h2 h3 h4 h5 h6,
+  tables_ok maxvec c1 c2 c3 c4 o1 o2 o3 h1 h2 h3 h4 h5 h6 = true.
 Proof. intros. vm_compute. reflexivity. Qed.
 
 Section C07.
@@ -27,21 +27,21 @@ Variable maxvec : N.
 Hypothesis Hmax : maxvec + 1 < 2 ^ 64.
 Hypothesis Hmin : 4 <= maxvec.
 Variables cap_txin cap_txout cap_vecu8 cap_h32 : N.
-Variables pt_ok pk_ok xonly_ok btctx_ok xpub_ok : bytes -> bool.
+Variables pt_ok pk_ok xonly_ok : bytes -> bool.
 Variables Hrip Hsha Hh160 Hh256 : bytes -> bytes.
 Variables Hleaf Hbranch : bytes -> bytes.
 
-Notation SER := (pset_serialize maxvec cap_txin cap_txout cap_vecu8 cap_h32 pt_ok pk_ok xonly_ok btctx_ok xpub_ok Hrip Hsha Hh160 Hh256 Hleaf Hbranch).
-Notation DESER := (pset_deserialize maxvec cap_txin cap_txout cap_vecu8 cap_h32 pt_ok pk_ok xonly_ok btctx_ok xpub_ok Hrip Hsha Hh160 Hh256 Hleaf Hbranch).
-Notation WF := (wf_pset_c maxvec cap_txin cap_txout cap_vecu8 cap_h32 pt_ok pk_ok xonly_ok btctx_ok xpub_ok Hrip Hsha Hh160 Hh256 Hleaf Hbranch).
+Notation SER := (pset_serialize maxvec cap_txin cap_txout cap_vecu8 cap_h32 pt_ok pk_ok xonly_ok Hrip Hsha Hh160 Hh256 Hleaf Hbranch).
+Notation DESER := (pset_deserialize maxvec cap_txin cap_txout cap_vecu8 cap_h32 pt_ok pk_ok xonly_ok Hrip Hsha Hh160 Hh256 Hleaf Hbranch).
+Notation WF := (wf_pset_c maxvec cap_txin cap_txout cap_vecu8 cap_h32 pt_ok pk_ok xonly_ok Hrip Hsha Hh160 Hh256 Hleaf Hbranch).
 Notation EQUIV := (pset_equiv maxvec Hleaf Hbranch).
-Notation TG := (Tg maxvec cap_txin cap_txout cap_vecu8 cap_h32 pt_ok pk_ok xonly_ok btctx_ok xpub_ok Hrip Hsha Hh160 Hh256 Hleaf Hbranch).
-Notation TI := (Ti maxvec cap_txin cap_txout cap_vecu8 cap_h32 pt_ok pk_ok xonly_ok btctx_ok xpub_ok Hrip Hsha Hh160 Hh256 Hleaf Hbranch).
-Notation TO := (To maxvec cap_txin cap_txout cap_vecu8 cap_h32 pt_ok pk_ok xonly_ok btctx_ok xpub_ok Hrip Hsha Hh160 Hh256 Hleaf Hbranch).
-Notation POSTG := (postg maxvec cap_txin cap_txout cap_vecu8 cap_h32 pt_ok pk_ok xonly_ok btctx_ok xpub_ok Hrip Hsha Hh160 Hh256 Hleaf Hbranch).
-Notation POSTI := (posti maxvec cap_txin cap_txout cap_vecu8 cap_h32 pt_ok pk_ok xonly_ok btctx_ok xpub_ok Hrip Hsha Hh160 Hh256 Hleaf Hbranch).
-Notation POSTO := (posto maxvec cap_txin cap_txout cap_vecu8 cap_h32 pt_ok pk_ok xonly_ok btctx_ok xpub_ok Hrip Hsha Hh160 Hh256 Hleaf Hbranch).
-Notation VCANON := (vcanon maxvec cap_txin cap_txout cap_vecu8 cap_h32 pt_ok pk_ok xonly_ok btctx_ok xpub_ok Hrip Hsha Hh160 Hh256 Hleaf Hbranch).
+Notation TG := (Tg maxvec cap_txin cap_txout cap_vecu8 cap_h32 pt_ok pk_ok xonly_ok Hrip Hsha Hh160 Hh256 Hleaf Hbranch).
+Notation TI := (Ti maxvec cap_txin cap_txout cap_vecu8 cap_h32 pt_ok pk_ok xonly_ok Hrip Hsha Hh160 Hh256 Hleaf Hbranch).
+Notation TO := (To maxvec cap_txin cap_txout cap_vecu8 cap_h32 pt_ok pk_ok xonly_ok Hrip Hsha Hh160 Hh256 Hleaf Hbranch).
+Notation POSTG := (postg maxvec cap_txin cap_txout cap_vecu8 cap_h32 pt_ok pk_ok xonly_ok Hrip Hsha Hh160 Hh256 Hleaf Hbranch).
+Notation POSTI := (posti maxvec cap_txin cap_txout cap_vecu8 cap_h32 pt_ok pk_ok xonly_ok Hrip Hsha Hh160 Hh256 Hleaf Hbranch).
+Notation POSTO := (posto maxvec cap_txin cap_txout cap_vecu8 cap_h32 pt_ok pk_ok xonly_ok Hrip Hsha Hh160 Hh256 Hleaf Hbranch).
+Notation VCANON := (vcanon maxvec cap_txin cap_txout cap_vecu8 cap_h32 pt_ok pk_ok xonly_ok Hrip Hsha Hh160 Hh256 Hleaf Hbranch).
 
 (* ---- every field of the three regenerated tables is reachable: the key get_pairs writes for it (plain type byte, or 0xFC with
    prefix "pset" and its subtype) is routed back to the same field by the decoder's dispatch, whatever the key data ---- *)
@@ -52,34 +52,34 @@ Proof. intros T H i r k v R A. apply (field_reachable maxvec Hmax Hmin T) with (
 
 (* ---- every well-formed PSET serializes to bytes that deserialize to the same PSET ---- *)
 Theorem C07_rt : forall p, WF p -> DESER (SER p) = POk p.
-Proof. exact (rt_c maxvec Hmax Hmin cap_txin cap_txout cap_vecu8 cap_h32 pt_ok pk_ok xonly_ok btctx_ok xpub_ok Hrip Hsha Hh160 Hh256 Hleaf Hbranch). Qed.
+Proof. exact (rt_c maxvec Hmax Hmin cap_txin cap_txout cap_vecu8 cap_h32 pt_ok pk_ok xonly_ok Hrip Hsha Hh160 Hh256 Hleaf Hbranch). Qed.
 (* ---- and to base64 text that parses to the same PSET ---- *)
 Theorem C07_rt_text : forall p, WF p ->
-  from_str maxvec cap_txin cap_txout cap_vecu8 cap_h32 pt_ok pk_ok xonly_ok btctx_ok xpub_ok Hrip Hsha Hh160 Hh256 Hleaf Hbranch
-    (to_string maxvec cap_txin cap_txout cap_vecu8 cap_h32 pt_ok pk_ok xonly_ok btctx_ok xpub_ok Hrip Hsha Hh160 Hh256 Hleaf Hbranch p) = POk p.
-Proof. exact (rt_text_c maxvec Hmax Hmin cap_txin cap_txout cap_vecu8 cap_h32 pt_ok pk_ok xonly_ok btctx_ok xpub_ok Hrip Hsha Hh160 Hh256 Hleaf Hbranch). Qed.
+  from_str maxvec cap_txin cap_txout cap_vecu8 cap_h32 pt_ok pk_ok xonly_ok Hrip Hsha Hh160 Hh256 Hleaf Hbranch
+    (to_string maxvec cap_txin cap_txout cap_vecu8 cap_h32 pt_ok pk_ok xonly_ok Hrip Hsha Hh160 Hh256 Hleaf Hbranch p) = POk p.
+Proof. exact (rt_text_c maxvec Hmax Hmin cap_txin cap_txout cap_vecu8 cap_h32 pt_ok pk_ok xonly_ok Hrip Hsha Hh160 Hh256 Hleaf Hbranch). Qed.
 Theorem C07_base64 : forall bs, b64_dec (b64_enc bs) = Some bs.
 Proof. exact b64_roundtrip. Qed.
 
 (* ---- what the decoder accepts is well-formed: all acceptance rules hold of its output ---- *)
 Theorem C07_decoder_wf : forall bs p, DESER bs = POk p -> WF p.
-Proof. exact (deserialize_wf_c maxvec Hmax Hmin cap_txin cap_txout cap_vecu8 cap_h32 pt_ok pk_ok xonly_ok btctx_ok xpub_ok Hrip Hsha Hh160 Hh256 Hleaf Hbranch). Qed.
+Proof. exact (deserialize_wf_c maxvec Hmax Hmin cap_txin cap_txout cap_vecu8 cap_h32 pt_ok pk_ok xonly_ok Hrip Hsha Hh160 Hh256 Hleaf Hbranch). Qed.
 (* ---- for EVERY accepted byte string, decode-then-encode gives a canonical byte string that decodes to an equal PSET and
    re-encodes to itself (no exception class since fix aee9a45; the former refutation C07_taptree_fixpoint_refuted is gone) ---- *)
 Theorem C07_fixpoint : forall bs p, DESER bs = POk p ->
   let c := SER p in exists p', DESER c = POk p' /\ EQUIV p' p /\ SER p' = c.
-Proof. exact (fixpoint_full_c maxvec Hmax Hmin cap_txin cap_txout cap_vecu8 cap_h32 pt_ok pk_ok xonly_ok btctx_ok xpub_ok Hrip Hsha Hh160 Hh256 Hleaf Hbranch). Qed.
+Proof. exact (fixpoint_full_c maxvec Hmax Hmin cap_txin cap_txout cap_vecu8 cap_h32 pt_ok pk_ok xonly_ok Hrip Hsha Hh160 Hh256 Hleaf Hbranch). Qed.
 (* the laws of the value canonisers the fixpoint rests on: idempotent and never lengthening, for every type; for TapTree
    (through the C15 builder model and its completeness theorem) Deserialize then Serialize is the identity on accepted bytes *)
 Theorem C07_canon_idempotent : forall t k v c, VCANON t k v = POk c -> VCANON t k c = POk c.
-Proof. exact (vcanon_idem maxvec cap_txin cap_txout cap_vecu8 cap_h32 pt_ok pk_ok xonly_ok btctx_ok xpub_ok Hrip Hsha Hh160 Hh256 Hleaf Hbranch). Qed.
+Proof. exact (vcanon_idem maxvec cap_txin cap_txout cap_vecu8 cap_h32 pt_ok pk_ok xonly_ok Hrip Hsha Hh160 Hh256 Hleaf Hbranch). Qed.
 Theorem C07_canon_size : forall t k v c, VCANON t k v = POk c -> (length c <= length v)%nat.
-Proof. exact (vcanon_size maxvec cap_txin cap_txout cap_vecu8 cap_h32 pt_ok pk_ok xonly_ok btctx_ok xpub_ok Hrip Hsha Hh160 Hh256 Hleaf Hbranch). Qed.
+Proof. exact (vcanon_size maxvec cap_txin cap_txout cap_vecu8 cap_h32 pt_ok pk_ok xonly_ok Hrip Hsha Hh160 Hh256 Hleaf Hbranch). Qed.
 Theorem C07_taptree_identity : forall v c, canon_taptree maxvec Hleaf Hbranch v = POk c -> c = v.
 Proof. exact (taptree_id maxvec Hleaf Hbranch). Qed.
 (* commitments and generators are exactly 33 bytes (fix 838e50c) *)
 Theorem C07_commitment_length : forall k v c, (VCANON TyPedersen k v = POk c \/ VCANON TyGenerator k v = POk c) -> c = v /\ length v = 33%nat.
-Proof. exact (commitment_length maxvec cap_txin cap_txout cap_vecu8 cap_h32 pt_ok pk_ok xonly_ok btctx_ok xpub_ok Hrip Hsha Hh160 Hh256 Hleaf Hbranch). Qed.
+Proof. exact (commitment_length maxvec cap_txin cap_txout cap_vecu8 cap_h32 pt_ok pk_ok xonly_ok Hrip Hsha Hh160 Hh256 Hleaf Hbranch). Qed.
 
 (* ---- rejections ---- *)
 (* duplicate keys: in any map (any field table T), an encoding in which the same raw key occurs twice is rejected, provided the key
@@ -105,14 +105,14 @@ Proof. intros T H fuel a key v1 b v2 tail m Fa F1 Fb F2. apply (C07_rejects_dupl
    input: previous txid and index; output: script and the four completeness rules, which are `posto`) *)
 Theorem C07_rejects_missing_global : forall bs m rest, dec_map maxvec TG POSTG bs = POk (m, rest) ->
   missing TG m = false /\ get_opt m (idx C07_GLOBAL_FIELDS (blit_of "ver"%lb)) = Some two_le.
-Proof. exact (missing_g maxvec cap_txin cap_txout cap_vecu8 cap_h32 pt_ok pk_ok xonly_ok btctx_ok xpub_ok Hrip Hsha Hh160 Hh256 Hleaf Hbranch). Qed.
+Proof. exact (missing_g maxvec cap_txin cap_txout cap_vecu8 cap_h32 pt_ok pk_ok xonly_ok Hrip Hsha Hh160 Hh256 Hleaf Hbranch). Qed.
 Theorem C07_rejects_missing_input : forall bs m rest, dec_map maxvec TI POSTI bs = POk (m, rest) -> missing TI m = false.
-Proof. exact (missing_i maxvec cap_txin cap_txout cap_vecu8 cap_h32 pt_ok pk_ok xonly_ok btctx_ok xpub_ok Hrip Hsha Hh160 Hh256 Hleaf Hbranch). Qed.
+Proof. exact (missing_i maxvec cap_txin cap_txout cap_vecu8 cap_h32 pt_ok pk_ok xonly_ok Hrip Hsha Hh160 Hh256 Hleaf Hbranch). Qed.
 Theorem C07_rejects_missing_output : forall bs m rest, dec_map maxvec TO POSTO bs = POk (m, rest) -> missing TO m = false /\ POSTO m = None.
-Proof. exact (missing_o maxvec cap_txin cap_txout cap_vecu8 cap_h32 pt_ok pk_ok xonly_ok btctx_ok xpub_ok Hrip Hsha Hh160 Hh256 Hleaf Hbranch). Qed.
+Proof. exact (missing_o maxvec cap_txin cap_txout cap_vecu8 cap_h32 pt_ok pk_ok xonly_ok Hrip Hsha Hh160 Hh256 Hleaf Hbranch). Qed.
 (* inconsistent counts: whatever is accepted has declared counts equal to the number of maps, and nothing after the last map *)
 Theorem C07_rejects_count : forall bs p, DESER bs = POk p -> sanity_check n_inputs n_outputs p = true.
-Proof. exact (counts_c maxvec Hmax Hmin cap_txin cap_txout cap_vecu8 cap_h32 pt_ok pk_ok xonly_ok btctx_ok xpub_ok Hrip Hsha Hh160 Hh256 Hleaf Hbranch). Qed.
+Proof. exact (counts_c maxvec Hmax Hmin cap_txin cap_txout cap_vecu8 cap_h32 pt_ok pk_ok xonly_ok Hrip Hsha Hh160 Hh256 Hleaf Hbranch). Qed.
 (* invalid hash preimages *)
 Theorem C07_rejects_preimage : forall k v, Hsha v <> k -> VCANON TyPreSha k v = PErr EPreimage.
 Proof. intros k v H. exact (preimage_rejects Hsha k v H). Qed.
@@ -138,8 +138,8 @@ Definition nohash (_ : bytes) : bytes := [].
    it are equal under every hash) so that no executable SHA-256 (primitive integers) enters a theorem *)
 Definition tapleaf : bytes -> bytes := fun b => b.
 Definition tapbranch : bytes -> bytes := fun b => b.
-Definition deser0 := pset_deserialize 4000000 1000 1000 1000 1000 no no no no no nohash nohash nohash nohash tapleaf tapbranch.
-Definition ser0 := pset_serialize 4000000 1000 1000 1000 1000 no no no no no nohash nohash nohash nohash tapleaf tapbranch.
+Definition deser0 := pset_deserialize 4000000 1000 1000 1000 1000 no no no nohash nohash nohash nohash tapleaf tapbranch.
+Definition ser0 := pset_serialize 4000000 1000 1000 1000 1000 no no no nohash nohash nohash nohash tapleaf tapbranch.
 Definition hx (s : blit) : bytes := match bytes_of_hex s with Some b => b | None => [] end.
 
 (* regression witnesses of the three repaired findings, evaluated by the kernel on the regenerated tables:
@@ -155,9 +155,9 @@ Proof. vm_compute. reflexivity. Qed.
 Definition is_err {A} (x : pres A) : bool := match x with PErr _ => true | POk _ => false end.
 Definition gen32 : blit := blit_of "0a0101010101010101010101010101010101010101010101010101010101010101"%lb.
 Example C07_commitment_length_rejected :
-  is_err (vcanon 4000000 1000 1000 1000 1000 (fun _ => true) no no no no nohash nohash nohash nohash tapleaf tapbranch TyGenerator [] (firstn 32 (hx gen32))) = true /\
-  is_err (vcanon 4000000 1000 1000 1000 1000 (fun _ => true) no no no no nohash nohash nohash nohash tapleaf tapbranch TyGenerator [] (hx gen32 ++ [x00])) = true /\
-  is_err (vcanon 4000000 1000 1000 1000 1000 (fun _ => true) no no no no nohash nohash nohash nohash tapleaf tapbranch TyGenerator [] (hx gen32)) = false.
+  is_err (vcanon 4000000 1000 1000 1000 1000 (fun _ => true) no no nohash nohash nohash nohash tapleaf tapbranch TyGenerator [] (firstn 32 (hx gen32))) = true /\
+  is_err (vcanon 4000000 1000 1000 1000 1000 (fun _ => true) no no nohash nohash nohash nohash tapleaf tapbranch TyGenerator [] (hx gen32 ++ [x00])) = true /\
+  is_err (vcanon 4000000 1000 1000 1000 1000 (fun _ => true) no no nohash nohash nohash nohash tapleaf tapbranch TyGenerator [] (hx gen32)) = false.
 Proof. vm_compute. repeat split; reflexivity. Qed.
 
 (* non-vacuity: a real PSET (one explicit output; produced by the crate) is accepted, re-encodes to itself and satisfies every
@@ -168,19 +168,19 @@ Definition sample_check : bool :=
   | POk p => bytes_eqb (ser0 p) sample_input && Nat.eqb (length (p_outputs p)) 1
   | PErr _ => false end.
 Example C07_sample_wf : exists p, deser0 sample_input = POk p /\ ser0 p = sample_input /\
-  wf_pset_c 4000000 1000 1000 1000 1000 no no no no no nohash nohash nohash nohash tapleaf tapbranch p.
+  wf_pset_c 4000000 1000 1000 1000 1000 no no no nohash nohash nohash nohash tapleaf tapbranch p.
 Proof. assert (E : sample_check = true) by (vm_compute; reflexivity). unfold sample_check in E.
   destruct (deser0 sample_input) as [p|] eqn:D; [|discriminate]. exists p. split; [reflexivity|].
   apply andb_true_iff in E as [E _]. split; [now apply bytes_eqb_true|].
-  exact (C07_decoder_wf 4000000 ltac:(vm_compute; reflexivity) ltac:(vm_compute; discriminate) _ _ _ _ _ _ _ _ _ _ _ _ _ _ _ sample_input p D). Qed.
+  exact (C07_decoder_wf 4000000 ltac:(vm_compute; reflexivity) ltac:(vm_compute; discriminate) _ _ _ _ _ _ _ _ _ _ _ _ _ sample_input p D). Qed.
 
-Check (C07_rt : forall maxvec, maxvec + 1 < 2 ^ 64 -> 4 <= maxvec -> forall c1 c2 c3 c4 o1 o2 o3 o4 o5 h1 h2 h3 h4 h5 h6 p,
-  wf_pset_c maxvec c1 c2 c3 c4 o1 o2 o3 o4 o5 h1 h2 h3 h4 h5 h6 p ->
-  pset_deserialize maxvec c1 c2 c3 c4 o1 o2 o3 o4 o5 h1 h2 h3 h4 h5 h6 (pset_serialize maxvec c1 c2 c3 c4 o1 o2 o3 o4 o5 h1 h2 h3 h4 h5 h6 p) = POk p).
-Check (C07_fixpoint : forall maxvec, maxvec + 1 < 2 ^ 64 -> 4 <= maxvec -> forall c1 c2 c3 c4 o1 o2 o3 o4 o5 h1 h2 h3 h4 h5 h6 bs p,
-  pset_deserialize maxvec c1 c2 c3 c4 o1 o2 o3 o4 o5 h1 h2 h3 h4 h5 h6 bs = POk p ->
-  let c := pset_serialize maxvec c1 c2 c3 c4 o1 o2 o3 o4 o5 h1 h2 h3 h4 h5 h6 p in
-  exists p', pset_deserialize maxvec c1 c2 c3 c4 o1 o2 o3 o4 o5 h1 h2 h3 h4 h5 h6 c = POk p' /\ pset_equiv maxvec h5 h6 p' p /\
-             pset_serialize maxvec c1 c2 c3 c4 o1 o2 o3 o4 o5 h1 h2 h3 h4 h5 h6 p' = c).
-Check (C07_rejects_count : forall maxvec, maxvec + 1 < 2 ^ 64 -> 4 <= maxvec -> forall c1 c2 c3 c4 o1 o2 o3 o4 o5 h1 h2 h3 h4 h5 h6 bs p,
-  pset_deserialize maxvec c1 c2 c3 c4 o1 o2 o3 o4 o5 h1 h2 h3 h4 h5 h6 bs = POk p -> sanity_check n_inputs n_outputs p = true).
+Check (C07_rt : forall maxvec, maxvec + 1 < 2 ^ 64 -> 4 <= maxvec -> forall c1 c2 c3 c4 o1 o2 o3 h1 h2 h3 h4 h5 h6 p,
+  wf_pset_c maxvec c1 c2 c3 c4 o1 o2 o3 h1 h2 h3 h4 h5 h6 p ->
+  pset_deserialize maxvec c1 c2 c3 c4 o1 o2 o3 h1 h2 h3 h4 h5 h6 (pset_serialize maxvec c1 c2 c3 c4 o1 o2 o3 h1 h2 h3 h4 h5 h6 p) = POk p).
+Check (C07_fixpoint : forall maxvec, maxvec + 1 < 2 ^ 64 -> 4 <= maxvec -> forall c1 c2 c3 c4 o1 o2 o3 h1 h2 h3 h4 h5 h6 bs p,
+  pset_deserialize maxvec c1 c2 c3 c4 o1 o2 o3 h1 h2 h3 h4 h5 h6 bs = POk p ->
+  let c := pset_serialize maxvec c1 c2 c3 c4 o1 o2 o3 h1 h2 h3 h4 h5 h6 p in
+  exists p', pset_deserialize maxvec c1 c2 c3 c4 o1 o2 o3 h1 h2 h3 h4 h5 h6 c = POk p' /\ pset_equiv maxvec h5 h6 p' p /\
+             pset_serialize maxvec c1 c2 c3 c4 o1 o2 o3 h1 h2 h3 h4 h5 h6 p' = c).
+Check (C07_rejects_count : forall maxvec, maxvec + 1 < 2 ^ 64 -> 4 <= maxvec -> forall c1 c2 c3 c4 o1 o2 o3 h1 h2 h3 h4 h5 h6 bs p,
+  pset_deserialize maxvec c1 c2 c3 c4 o1 o2 o3 h1 h2 h3 h4 h5 h6 bs = POk p -> sanity_check n_inputs n_outputs p = true).
